@@ -34,6 +34,7 @@ type c15Gen struct {
 	noParamTilde bool // no ~n~ (tilde directive with a parameter) inside a block
 	noBraceLit   bool // no literal } (it could follow a ~})
 	noNilSubList bool // ~? never gets nil as its argument list
+	colDepInBlocks bool // ~& and ~T may stand inside blocks
 	noHat       bool
 }
 
@@ -45,7 +46,7 @@ func c15Dir(cell string) string {
 func newC15Gen(rng *lib.Rng, avoid func(string) bool) *c15Gen {
 	g := &c15Gen{rng: rng, avoid: avoid, byDir: map[string][]int{}}
 	for _, p := range c15Pieces(false) {
-		if p.cursor || p.colDep || avoid(p.cell+" ") {
+		if p.cursor || avoid(p.cell+" ") {
 			continue
 		}
 		if strings.Contains(p.cell, "roman-") && g.rng.Intn(40) != 0 {
@@ -66,6 +67,9 @@ func newC15Gen(rng *lib.Rng, avoid func(string) bool) *c15Gen {
 		avoid(cellKey("[", ":", "none", "directive-first-in-second-clause")+" ") || avoid(cellKey("[", ":", "none", "modifier-characters-after-separator")+" ")
 	g.noParamTilde = nest("{", "parameterised-tilde-before-close") || nest("[", "parameterised-tilde-before-close") || nest("(", "parameterised-tilde-before-close")
 	g.noHat = avoid("dir=^ ")
+	// ~& and ~T inside blocks only when no "inside a block" cell is listed
+	g.colDepInBlocks = !(avoid(cellKey("&", "", "none", "-")+" ctx=first-in-") || avoid(cellKey("t", "", "colnum", "-")+" ctx=first-in-") ||
+		avoid(cellKey("t", "", "colnum", "-")+" ctx=in-"))
 	g.noBraceLit = nest("{", "literal-brace-after-close")
 	g.noNilSubList = avoid(cellKey("?", "", "none", "literal-control") + " ")
 	return g
@@ -147,6 +151,9 @@ func (g *c15Gen) blockPiece() unit {
 	for {
 		u := g.pieceUnit()
 		if g.noParamTilde && strings.HasPrefix(u.cell, "dir=~ ") && !strings.Contains(u.cell, "params=none") {
+			continue
+		}
+		if !g.colDepInBlocks && (strings.HasPrefix(u.cell, "dir=& ") || strings.HasPrefix(u.cell, "dir=t ")) {
 			continue
 		}
 		return u
